@@ -520,6 +520,14 @@ func stateAgreement(pj *simdjson.ParsedJson, docs []*ref.Node, mode simdjson.Com
 	if what := marshalInner(pj, docs); what != "" {
 		return what, "MarshalJSON(inner)"
 	}
+	// every array also through the element-wise numeric accessors and the bulk accessors
+	for _, cp := range containerPositions(docs) {
+		if n := nodeAt(docs, cp); n.K == ref.KArr {
+			if what, fp := c12ArrayAccessorsAt(pj, cp, n); what != "" {
+				return fmt.Sprintf("array at %v: %s", cp, what), "Array accessors/" + fp
+			}
+		}
+	}
 	rt, what := roundTrip(pj, mode, simdjson.CompressMode((int(mode)+1)%4))
 	if what != "" {
 		return what, "serialize round trip"
